@@ -16,9 +16,18 @@ for sid in sorted(os.listdir("/verif/seeded")):
         for l in checks[k]["first_lines"][:1]:
             if "key=" in l:
                 keys.append(l.split("key=")[1].split(" ")[0])
-    rows.append("| %s | %s | %s | %s | %s | %s |" % (
+    dbs = v.get("detection_by_seed")
+    rate = ""
+    if dbs:
+        ex = dbs["exit_by_seed"]
+        first = checks.get(dbs["check"], {}).get("exit")
+        allx = ([first] if first is not None else []) + list(ex.values())
+        rate = "%s: %d/%d" % (dbs["check"], sum(1 for x in allx if x == 1), len(allx))
+        if any(x not in (0, 1) for x in allx):
+            rate += " (+%d harness)" % sum(1 for x in allx if x not in (0, 1))
+    rows.append("| %s | %s | %s | %s | %s | %s | %s |" % (
         sid, m.get("property"), m.get("summary", "").replace("|", "/")[:230], m.get("needs", "").replace("|", "/")[:200],
-        ", ".join(caught) + ((" (silent: " + ", ".join(missed) + ")") if missed else ""), "; ".join(keys)[:120]))
-print("| id | property | change | needs to manifest | caught by (quick tier) | first violation key |")
-print("|---|---|---|---|---|---|")
+        ", ".join(caught) + ((" (silent: " + ", ".join(missed) + ")") if missed else ""), rate, "; ".join(keys)[:120]))
+print("| id | property | change | needs to manifest | caught by (quick tier, seed 1) | targeted check over seeds 1-4 | first violation key |")
+print("|---|---|---|---|---|---|---|")
 print("\n".join(rows))
